@@ -42,6 +42,21 @@ T = {
  'C14-B': ('C14', 'match anchors the regular expression unless the pattern contains % anywhere', 'a % that is not the last character of the pattern'),
  'C20-C': ('C20', 'MessageHashesMap.Erase deletes the id before looking the hash up: the hash is never forgotten', 'rejected APPEND, the copy leaves the recovery mailbox, the same bytes are rejected again'),
  'C20-D': ('C20', 'actionCreateRecoveredMessage returns the error of the de-duplication hash instead of ignoring it', 'a rejected APPEND of a message whose text part declares base64 that does not decode'),
+ 'C01-C': ('C01', 'responses still in the IDLE bulk buffer at DONE are dropped', 'an update arriving in the last bulk interval before DONE'),
+ 'C01-D': ('C01', 'fetch.canSkip lets a FETCH be merged across an EXPUNGE of a lower sequence number', 'one flush with a flag change on message n, an expunge below n and a flag change on the message renumbered to n'),
+ 'C01-E': ('C01', 'fetch.handle is also silent when the command in progress is a silent STORE', 'another session changes flags and the next command of the observer is STORE ... .SILENT'),
+ 'C05-D': ('C05', 'handleCheck no longer flushes with permitExpunge', 'a removal pending when the observer sends CHECK'),
+ 'C05-E': ('C05', '[EXPUNGEISSUED] omitted for UID SEARCH', 'a pending removal and UID SEARCH'),
+ 'C03-D': ('C03', 'UID EXPUNGE loses the toExpunge filter (loop turned into xslices.Map)', 'a UID set naming a message that is not marked deleted'),
+ 'C03-E': ('C03', 'applyMessageFlagsSet writes the per-mailbox deleted column only when the new set holds the deleted flag', 'STORE FLAGS without the deleted flag on a deleted message, seen from a fresh view'),
+ 'C13-E': ('C13', 'ScanAll drops empty parts (len(data) != 0)', 'a multipart with a zero-length part'),
+ 'C17-C': ('C17', 'CheckMailBoxMessageCount compares the existing count only', 'existing < max < existing + n with n >= 2'),
+ 'C06-C': ('C06', 'applyMessagesCreated leaves early when there is nothing to create OR nothing to assign', 'a batch naming only known messages with a new mailbox assignment'),
+ 'C10-D': ('C10', 'partial offset parsed with ParseNZNumber', 'BODY[]<0.n>'),
+ 'C10-E': ('C10', 'unquoted astring collected with IsAtomChar', 'an unquoted astring containing ]'),
+ 'C10-F': ('C10', 'ID field name must be a quoted string', 'an ID parameter name sent as a literal'),
+ 'C16-C': ('C16', '* in a UID set resolves to the message count', 'a view whose highest UID differs from its size and a UID set with *'),
+ 'C16-D': ('C16', 'STORE beyond the view answered NO instead of BAD', 'STORE with a number beyond the view'),
  'C18-C': ('C18', 'handleLogin trims blanks around user name and password', 'a quoted/literal credential with leading or trailing blanks'),
 }
 for sid, (prop, what, needs) in sorted(T.items()):
